@@ -169,6 +169,8 @@ class World:
         if k == "opt":
             return f"(TOpt {self.cty(t[1])})"
         if k in ("class", "self"):
+            if t[1] < len(self.specs) and self.uses_td(t[1]):
+                raise Unencodable("TypedDict positions are not in the nested model")
             return f"(TClass {self.mid(t[1]) if t[1] < len(self.specs) else t[1]}%N)"
         if k == "newtype":
             return f"(TNewType {t[1]}%N {self.cty(t[2])})"
@@ -216,11 +218,33 @@ class World:
         from lane_tpl import seen_kw_only
         out = []
         for spec, cl in zip(self.specs, self.pycls):
+            if self.uses_td(spec.cid):
+                continue
             seen = seen_kw_only(cl)
             fields = "[" + "; ".join(self.cfield(f, seen[f.name]) for f in spec.fields) + "]"
             types = "[" + "; ".join(f"({self.intern(f.name)}%N, {self.cty(f.type)})" for f in spec.fields if f.type is not None) + "]"
             out.append(f"({self.mid(spec.cid)}%N, {{| cd_fields := {fields}; cd_types := {types} |}})")
         return "[" + ";\n   ".join(out) + "]"
+
+    def uses_td(self, cid, seen=()):
+        if cid in seen:
+            return False
+        spec = self.specs[cid]
+        return spec.kind == "td" or any(f.type is not None and self._mentions_td(f.type, seen + (cid,)) for f in spec.fields)
+
+    def _mentions_td(self, t, seen=()):
+        k = t[0]
+        if k in ("class", "self"):
+            return t[1] < len(self.specs) and self.uses_td(t[1], seen)
+        if k in ("list", "tuphom", "set", "fset", "opt", "annot"):
+            return self._mentions_td(t[1], seen)
+        if k == "newtype":
+            return self._mentions_td(t[2], seen)
+        if k == "tuple":
+            return any(self._mentions_td(x, seen) for x in t[1])
+        if k == "dict":
+            return self._mentions_td(t[1], seen) or self._mentions_td(t[2], seen)
+        return False
 
     def cenums(self):
         return "[" + "; ".join(f"({i}%N, [" + "; ".join(self.cval(m.value) for m in e) + "])" for i, e in enumerate(self.enums)) + "]"
@@ -328,25 +352,27 @@ def gen_literal(w: World):
 def gen_class(w: World, cid: int) -> ClassSpec:
     rng, p = w.rng, w.profile
     kind = rng.choice(p.get("kinds", ["attrs", "attrs", "frozen", "dataclass"]))
+    if rng.random() < p.get("typeddicts", 0.0):
+        kind = "td"        # a TypedDict: oracle-only (not in the nested model)
     n = rng.randint(0, p.get("max_fields", 4))
     fields = []
     seen_default_pos = False
     recursive = False
     hash_cls = kind == "frozen" and rng.random() < 0.6
     for i in range(n):
-        private = kind != "dataclass" and rng.random() < p.get("private", 0.15)
+        private = kind not in ("dataclass", "td") and rng.random() < p.get("private", 0.15)
         name = f"_p{i}" if private else f"f{i}"
         alias = name.lstrip("_")
-        untyped = kind != "dataclass" and rng.random() < p.get("untyped", 0.08)
+        untyped = kind not in ("dataclass", "td") and rng.random() < p.get("untyped", 0.08)
         t = None if untyped else gen_type(w, p.get("depth", 3), cid)
         if hash_cls:
             t = gen_type(w, 1, cid, hashable=True)      # a frozen class usable as set element / mapping key
         # a recursive reference (attrs only): Optional[Self] or List[Self]
-        if kind != "dataclass" and not recursive and not hash_cls and rng.random() < p.get("recursive", 0.12):
+        if kind not in ("dataclass", "td") and not recursive and not hash_cls and rng.random() < p.get("recursive", 0.12):
             t = rng.choice([("opt", ("self", cid)), ("list", ("self", cid), 0), ("dict", ("prim", "str"), ("self", cid), 0)])
             recursive = True
-        init = not (rng.random() < p.get("init_false", 0.0))
-        kw_only = rng.random() < p.get("kw_only", 0.2)
+        init = not (rng.random() < p.get("init_false", 0.0)) or kind == "td"
+        kw_only = rng.random() < p.get("kw_only", 0.2) and kind != "td"
         has_default = rng.random() < (0.4 if init else 1.0)
         if t is not None and t[0] == "opt" and t[1][0] == "self":
             has_default = True
@@ -380,6 +406,10 @@ def build_class(w: World, spec: ClassSpec):
             else:
                 f.default = gen_value(w, f.type if f.type is not None else ("prim", "int"), 2)
             f.factory = _is_mutable(f.default) or w.rng.random() < 0.2
+    if spec.kind == "td":
+        from typing import NotRequired, TypedDict
+        ann = {f.name: (w.to_py(f.type) if f.default is NODEFAULT else NotRequired[w.to_py(f.type)]) for f in spec.fields}
+        return TypedDict(name, ann)
     if spec.kind in ("attrs", "frozen"):
         d = {}
         for f in spec.fields:
@@ -479,6 +509,13 @@ def gen_value(w: World, t, depth: int):
 
 def gen_instance(w: World, cid: int, depth: int):
     spec, cl = w.specs[cid], w.pycls[cid]
+    if spec.kind == "td":
+        d = {}
+        for f in spec.fields:
+            if f.default is not NODEFAULT and w.rng.random() < 0.4:
+                continue
+            d[f.name] = gen_value(w, f.type, depth - 1)
+        return d
     kwargs = {}
     for f in spec.fields:
         if not f.init:
